@@ -315,7 +315,12 @@ func MakeTLSConfig(configs []*Config) (*tls.Config, error) {
 		// if an existing config with this hostname was already
 		// configured, then they must be identical (or at least
 		// compatible), otherwise that is a configuration error
-		if otherConfig, ok := configMap[cfg.Hostname]; ok {
+		// (the catch-all has three spellings, which all live under one key: see below)
+		mapKey := cfg.Hostname
+		if mapKey == "0.0.0.0" || mapKey == "::" {
+			mapKey = ""
+		}
+		if otherConfig, ok := configMap[mapKey]; ok {
 			if err := assertConfigsCompatible(cfg, otherConfig); err != nil {
 				return nil, fmt.Errorf("incompatible TLS configurations for the same SNI "+
 					"name (%s) on the same listener: %v",
